@@ -542,6 +542,26 @@ class Fn(Stmts):
         bad(e, f'unary {type(e.op).__name__}')
 
     def expr_BoolOp(self, e, env, B):
+        """`and` / `or` in VALUE position return one of their operands: only the all-bool case (and `x or ''`) is that simple"""
+        if isinstance(e.op, ast.Or) and len(e.values) == 2 and isinstance(e.values[1], ast.Constant) and e.values[1].value == '':
+            t, ty = self.expr(e.values[0], env, B)
+            if ty == STR: return t, STR                      # '' or '' is ''
+            if ty == OPT(STR): return f'({atom(t)}.getD [])', STR
+            r = self.u.or_empty(self, e, (t, ty), env, B)
+            if r is not None: return r
+            bad(e, f"`x or ''` for x of type {ty}")
+        parts = []
+        for i, v in enumerate(e.values):
+            B2 = []
+            t, ty = self.expr(v, env, B2)
+            if ty not in (BOOL, TRUTH): bad(e, f'and/or of a {ty} in value position')
+            parts.append(t)
+            if B2:
+                if i > 0: bad(e, 'partial operation on the right of and/or')
+                B.extend(B2)
+        return '(' + (' && ' if isinstance(e.op, ast.And) else ' || ').join(parts) + ')', BOOL
+
+    def cond_BoolOp(self, e, env, B):
         parts = []
         for i, v in enumerate(e.values):
             B2 = []
@@ -549,7 +569,7 @@ class Fn(Stmts):
             if B2:
                 if i > 0: bad(e, 'partial operation on the right of and/or')
                 B.extend(B2)
-        return '(' + (' && ' if isinstance(e.op, ast.And) else ' || ').join(parts) + ')', BOOL
+        return '(' + (' && ' if isinstance(e.op, ast.And) else ' || ').join(parts) + ')'
 
     def expr_IfExp(self, e, env, B):
         c = self.cond(e.test, env, B)
@@ -674,6 +694,9 @@ class Fn(Stmts):
         bad(e, 'generator expression outside a supported call')
 
     def cond(self, e, env, B):
+        if isinstance(e, ast.BoolOp): return self.cond_BoolOp(e, env, B)
+        if isinstance(e, ast.UnaryOp) and isinstance(e.op, ast.Not) and isinstance(e.operand, ast.BoolOp):
+            return f'(!{self.cond_BoolOp(e.operand, env, B)})'
         text, ty = self.expr(e, env, B)
         if ty in (BOOL, TRUTH): return text
         if ty[0] in ('list', 'set', 'dict', 'ddict') or ty == STR: return f'(!{atom(text)}.isEmpty)'
@@ -1231,6 +1254,7 @@ class Unit:
     def tag_star(self, fn, a, env, B): return None
     def setitem(self, fn, e, d, env, B): return None
     def pseudo(self, fn, e, op, env, B): return None
+    def or_empty(self, fn, e, v, env, B): return None
     def caught(self, fn, t, env): return None
     def raise_(self, fn, s, env, B): return None
     def unpack(self, fn, target, value, s, env, go): return None
